@@ -167,6 +167,7 @@ BOUNDED_ONLY = {
     "C08": ("8/C08", "real spherical harmonics against a 50+ digit closed-form oracle up to l=20 (thorough 60/90), both implementations, addition theorem, derivatives, solid harmonics, coordinate conversion"),
     "C11": ("8/C11", "PeriodicGrid local grids against brute-force image enumeration for dims 1-3 x 0..dim lattice vectors, skewed/negative/long/short cells, wrapped or not, empty spheres"),
     "C14": ("8/C14", "order generator exhaustively to order 10 (thorough 40) and Grid.moments for all four types against explicit fsum oracles, several centres, 1-3 dimensions, dipole helper"),
+    "C16": ("8/C16", "Poisson solvers against closed-form potentials of s/p/d/f Gaussian densities (independent oracles): BVP atomic (9 radial-map/boundary/origin variants), anisotropic, two-centre, sum-over-atoms identity; IVP spherical; linearity/homogeneity; interpolate_laplacian; robust solver: exact cancellation, composition identity, split-2 with fitted basis, kwargs forwarding; argument validation"),
     "C18": ("8/C18", "MultiDomainGrid enumeration/integration on all size combinations up to 6 per domain, 1-4 domains, every chunk size 1..total+1, exact integer family, _chunked_iterator contracts"),
 }
 for _pid, (_ref, _what) in BOUNDED_ONLY.items():
